@@ -670,6 +670,10 @@ def read_mask_write(rng):
 
 # ---------------------------------------------------------------------------------------------- storage look-alikes
 
+# slot numbers whose bytes read as text (hand-placed "named" storage)
+TEXT_SLOTS = [int.from_bytes(n.ljust(32, b"\0"), "big") for n in (b"balances", b"owner", b"my.storage.slot")]
+
+
 def _hash_mapping(a, rng, slot_const):
     """keccak(key || slot_const) left on the stack (the mapping idiom), key symbolic."""
     a.emit(rng.choice(["CALLER", "CALLVALUE", 4]), *(["CALLDATALOAD"] if rng.random() < 0.4 else []))
@@ -760,7 +764,7 @@ def lookalike(rng, hash_table_items, with_storage=False, allow_value_side=False)
             if s in ("return", "revert", "xor-with-sload"):
                 break
         if with_storage and rng.random() < 0.8:
-            real = rng.choice([0x10, 0x11, 0x12, 0x13, 0x14])
+            real = rng.choice([0x10, 0x11, 0x12, 0x13, 0x14, 0x10, 0x11] + TEXT_SLOTS)
             info["real_slots"].add(real)
             k = rng.random()
             if k < 0.3:
